@@ -4,14 +4,24 @@
                      SignalState: __slots__; LaneletNetwork / Scenario additionally the content added through add_*
   state_classes_C12  every concrete subclass of commonroad.scenario.state.State found in the module
   dynamic_classes_C12 classes whose attributes are chosen per instance (**kwargs constructors)
-  optional_C12       class -> parameters whose default is None (used by the totality side condition of hash)
+  optional_C12       class -> parameters whose default is None
+  types_C12          class -> (attribute -> type of the values it holds, type of unlisted attributes); the types are
+                     the constructors' type annotations (typing.get_type_hints; for attributes read back through
+                     another property and for content added through add_*: the property's return annotation); an
+                     annotated class stands for its registered subclasses; None is an alternative iff the attribute of
+                     an instance built with every optional argument at its default reads back None
 
 Fail-closed: a class of the anchored modules that defines __eq__/__hash__ and is neither registered in
 c12_classes.CLASSES nor listed in NOT_ELEMENTS raises; a constructor parameter without a spec entry is caught by the
 [covers] side condition in Coq (the build of Props/C12.v fails)."""
+import enum
 import importlib
 import inspect
 import os
+import random
+import typing
+
+import numpy as np
 
 from vlib.core import COQ, qlist, qstr
 
@@ -50,6 +60,110 @@ def scan():
     return found, states
 
 
+# ------------------------------------------------------------------------------------------------ attribute types
+def ty_alts(t):
+    """Python type annotation -> list of Coq [alt] terms (None excluded: decided from the default instance)"""
+    if t is type(None):
+        return []
+    if t is bool:
+        return ["ABool"]
+    if t is int:
+        return ["AInt"]
+    if t is float:
+        return ["ANum"]
+    if t is str:
+        return ["AStr"]
+    if t is np.ndarray:
+        return ["AArr"]
+    org = typing.get_origin(t)
+    args = typing.get_args(t)
+    if org is typing.Union:
+        out = []
+        for a in args:
+            for x in ty_alts(a):
+                if x not in out:
+                    out.append(x)
+        return out
+    if org in (list, tuple):
+        return [f"AList {ty_term(args[0]) if args else 'TY []'}"]
+    if org in (set, frozenset):
+        return [f"ASet {ty_term(args[0])}"]
+    if org is dict:
+        return [f"ADict {ty_term(args[0])} {ty_term(args[1])}"]
+    if inspect.isclass(t) and issubclass(t, enum.Enum):
+        return ["AEnum"]
+    if inspect.isclass(t):
+        subs = [n for n in sorted(K.CLASSES) if issubclass(K.CLASSES[n], t)]
+        if subs:
+            return [f"AObj {qstr(n)}" for n in subs]
+    raise RuntimeError(f"C12 tables: type annotation {t!r} has no counterpart in the model's type language")
+
+
+def ty_term(t, none=False):
+    alts = (["ANone"] if none else []) + ty_alts(t)
+    return "(TY " + qlist(alts) + ")"
+
+
+# SignalState(**kwargs) has no annotated constructor: its documented slots
+SIGNAL_TYPES = {a: bool for a in ["horn", "indicator_left", "indicator_right", "braking_lights",
+                                  "hazard_warning_lights", "flashing_blue_lights"]}
+SIGNAL_TYPES["time_step"] = int
+
+
+def attr_annotations(name, cls):
+    """attribute -> annotation of the value read back for it"""
+    if name == "SignalState":
+        return dict(SIGNAL_TYPES)
+    hints = typing.get_type_hints(cls.__init__)
+    out = {}
+    for a in K.ctor_params(cls) + K.EXTRA_ATTRS.get(name, []):
+        acc = K.ACCESSOR.get((name, a))
+        if acc is not None or a in K.EXTRA_ATTRS.get(name, []):
+            prop = getattr(cls, acc or a)
+            t = typing.get_type_hints(prop.fget).get("return")
+        else:
+            t = hints.get(a)
+        if t is None:
+            raise RuntimeError(f"C12 tables: {name}.{a} has no type annotation")
+        out[a] = t
+    return out
+
+
+def default_none(name):
+    """attributes that read back None on an instance built with every optional argument at its default"""
+    if name in K.STATE_NAMES or name == "SignalState":
+        return set()  # unset attributes are absent, not None
+    spec = K.minimal_spec(name, random.Random(12))
+    obj, err = K.try_build(spec)
+    if obj is None:
+        raise RuntimeError(f"C12 tables: the default instance of {name} cannot be built: {err}")
+    rb = K.readback(obj)
+    return {a for a, v in rb[2] if v[0] == "none"}
+
+
+def types_rows():
+    from commonroad.scenario import state as st
+    rows = []
+    state_any = []
+    for sn in sorted(K.STATE_NAMES):
+        if sn == "CustomState":
+            continue
+        for t in typing.get_type_hints(K.CLASSES[sn].__init__).values():
+            for x in ty_alts(t):
+                if x not in state_any:
+                    state_any.append(x)
+    for name in sorted(K.CLASSES):
+        cls = K.CLASSES[name]
+        if name == "CustomState":
+            rows.append(f"  ({qstr(name)}, ([], Some (TY {qlist(state_any)})))")
+            continue
+        ann = attr_annotations(name, cls)
+        nones = default_none(name)
+        ent = [f"({qstr(a)}, {ty_term(t, a in nones)})" for a, t in ann.items()]
+        rows.append(f"  ({qstr(name)}, ({qlist(ent)}, None))")
+    return rows
+
+
 def tables_text():
     found, states = scan()
     missing = [n for n in found if n not in K.CLASSES and n not in NOT_ELEMENTS]
@@ -72,11 +186,13 @@ def tables_text():
            if any(p.kind == p.VAR_KEYWORD for p in inspect.signature(K.CLASSES[n].__init__).parameters.values())
            and not K.ctor_params(K.CLASSES[n])]
     return ("(* GENERATED by harness/props/c12_tables.py from the source tree on every run - do not edit *)\n"
-            "From Coq Require Import List String.\nImport ListNotations.\nOpen Scope string_scope.\n\n"
+            "From Coq Require Import List String.\nFrom CR Require Import Model.EqHash Model.EqHashTypes.\n"
+            "Import ListNotations.\nOpen Scope string_scope.\n\n"
             "Definition attrs_C12 : list (string * list string) := [\n" + ";\n".join(rows) + "\n].\n\n"
             "Definition optional_C12 : list (string * list string) := [\n" + ";\n".join(opt) + "\n].\n\n"
             f"Definition state_classes_C12 : list string := {qlist([qstr(s) for s in sorted(states)])}.\n\n"
-            f"Definition dynamic_classes_C12 : list string := {qlist([qstr(s) for s in dyn])}.\n")
+            f"Definition dynamic_classes_C12 : list string := {qlist([qstr(s) for s in dyn])}.\n\n"
+            "Definition types_C12 : ttable := [\n" + ";\n".join(types_rows()) + "\n].\n")
 
 
 def write_tables(ctx=None):
